@@ -11,6 +11,7 @@
 //!     argument, or in the model's rule set) and the finding applies iff the failure disappears;
 //!     see `classify`. Anything that no repair explains is a VIOLATION.
 mod families;
+mod frag;
 mod gen_;
 mod oracle;
 
@@ -85,7 +86,7 @@ pub struct Cx {
     pub judged: u64,
 }
 
-fn front(src: &str, cx: &Cx) -> Result<Unit, Judged> {
+pub fn front(src: &str, cx: &Cx) -> Result<Unit, Judged> {
     let mk = |kind, detail| Judged { kind, detail, result_type: String::new(), value: None };
     match compile_source(src, &cx.modules, &cx.b) {
         Ok(u) => Ok(u),
@@ -1081,6 +1082,9 @@ fn main() {
 
     // 3c. sequence nil-ability differential
     sequence_differential(&mut ev, &mut cx, opts.seed, opts.tier.pick(300, 8000));
+
+    // 3d. the proved fragment of the inference against the compiler (type ids, values)
+    frag::infer_differential(&mut ev, &mut cx, opts.seed, opts.tier.pick(500, 15000));
 
     // 4. the repository's own test sources (counters only; a test may expect its runtime error)
     run_repo_corpora(&mut ev, &mut cx, opts.tier.pick(100000, 100000));
